@@ -252,6 +252,8 @@ def invalid_probe(S, fmt, ch, rate, mode, rng, cfg=None):
               "trunc 0 -1", "cmd 0 12345678 0"]
     if mode == "w" and not scen.is_granular(fmt):
         kinds += ["seek 0 1000000 0", "seek 0 1000000 32"]      # a block encoder refuses these; the refusal must not touch what is pending
+    if mode == "rw" and not scen.is_granular(fmt):
+        kinds += ["seek 0 1000000 16", "seek 0 1000000 32", "seek 0 1000000 0", "seek 0 5 18"]
     for last in ("read", "write"):
         S.scn(fmt="0x%x" % fmt, ch=ch, T=T0, kind="invprobe", mode=mode, last=last, **(cfg or {}))
         S.add("file 1 new", "open 0 %s w 1 %d %d %d" % (rt, fmt, ch, rate), "write 0 %s f 24 gen %s %d %d" % (T0, cls, rng.randint(1, 10 ** 6), par), "close 0")
